@@ -390,7 +390,9 @@ impl<H: Hal, const SIZE: usize> VirtQueue<H, SIZE> {
             // SAFETY: `self.used` points to a valid, aligned, initialised, dereferenceable, readable
             // instance of `UsedRing`.
             let avail_event = unsafe { (*self.used.as_ptr()).avail_event.load(Ordering::Acquire) };
-            self.avail_idx >= avail_event.wrapping_add(1)
+            // `avail_idx` and `avail_event` are free-running 16-bit counters, so the comparison has to
+            // be done modulo 2^16: notify unless `avail_event` is at or ahead of `avail_idx`.
+            self.avail_idx.wrapping_sub(avail_event.wrapping_add(1)) < 0x8000
         } else {
             // SAFETY: `self.used` points to a valid, aligned, initialised, dereferenceable, readable
             // instance of `UsedRing`.
